@@ -92,6 +92,11 @@ def _alphabet() -> Dict[str, Dict[str, Any]]:
     op("mul_1p3", "mul", "{h} * 1.3", lambda h, m, i: ((h, 1.3), {}))
     op("div_1p3", "div", "{h} / 1.3", lambda h, m, i: ((h, 1.3), {}))
     op("mul_1p35", "mul", "{h} * 1.35", lambda h, m, i: ((h, 1.35), {}))
+    op("mul_1p2", "mul", "{h} * 1.2", lambda h, m, i: ((h, 1.2), {}))
+    # the same operation reached through DIFFERENT targets that share a __name__ (operator.add vs torch.add, ...)
+    op("torch_add_scalar", "torch.add", "torch.add({h}, 1.5)", lambda h, m, i: ((h, 1.5), {}))
+    op("torch_neg", "torch.neg", "torch.neg({h})", lambda h, m, i: ((h,), {}))
+    op("torch_mul_scalar", "torch.mul", "torch.mul({h}, 1.5)", lambda h, m, i: ((h, 1.5), {}))
     op("neg", "neg", "-{h}", lambda h, m, i: ((h,), {}))
     op("reshape", "reshape", "{h}.reshape(B, S, 2, D // 2).reshape(B, S, D)", lambda h, m, i: ((h,), {}))
     op("view_t", "view_t", "{h}.transpose(0, 1).contiguous().transpose(0, 1)", lambda h, m, i: ((h,), {}))
@@ -309,6 +314,7 @@ class Semantics:
             "gate_softmax": lambda h: h * F.softmax(h, dim=-1),
             "hand_scaled": lambda h: U.scale_fwd(U.scale_bwd(h, 0.5) * 2.0, 0.25),
             "mul": lambda a, b: a * b, "div": lambda a, b: a / b, "neg": lambda a: -a,
+            "torch.add": torch.add, "torch.neg": torch.neg, "torch.mul": torch.mul,
             "reshape": lambda h: h.reshape(B, S, 2, D // 2).reshape(B, S, D),
             "view_t": lambda h: h.transpose(0, 1).contiguous().transpose(0, 1),
             "rotate_half": lambda h: torch.cat([-h[..., D // 2:], h[..., : D // 2]], dim=-1),
